@@ -126,7 +126,7 @@ def run(res):
 
 
 def compare(case, m, i):
-    return [ctl.strip_ok(x) for x in m] == i and all(ctl.model_flags(x)[:2] == "11" for x in m)
+    return [ctl.strip_ok(x) for x in m] == i and all(ctl.model_flags(x)[:2] == "11" and ctl.model_flags(x)[3:5] == "11" for x in m)
 
 
 def search(res):
